@@ -50,6 +50,13 @@ impl<T> GecsExpect<T> for Option<T> {
     { self.expect(msg) }
 }
 
+impl<T, E: core::fmt::Debug> GecsExpect<T> for Result<T, E> {
+    #[verifier::external_body]
+    fn gecs_expect(self, msg: &str) -> (r: T)
+        ensures self is Ok, r == self->Ok_0
+    { self.expect(msg) }
+}
+
 // ---- R-nzmin: NonZeroU32::MIN
 #[verifier::external_body]
 pub const fn nonzero_min() -> (r: NonZeroU32) ensures r@ == 1 { NonZeroU32::MIN }
@@ -59,6 +66,13 @@ pub const fn nonzero_min() -> (r: NonZeroU32) ensures r@ == 1 { NonZeroU32::MIN 
 pub proof fn axiom_nonzero_u32_ext(a: NonZeroU32, b: NonZeroU32)
     requires a@ == b@
     ensures a == b
+{ }
+
+// ---- core's reflexive `impl<T> From<T> for T` (hence `Into<T> for T`) is the identity (A-std; its body is not in the verified text)
+#[verifier::external_body]
+pub proof fn axiom_into_reflexive<T>(x: T)
+    ensures <T as vstd::std_specs::convert::IntoSpec<T>>::obeys_into_spec(),
+        <T as vstd::std_specs::convert::IntoSpec<T>>::into_spec(x) == x
 { }
 
 // ---- Hash: a hasher is abstracted as the sequence of u64 words fed to it (A-std)
